@@ -6,6 +6,7 @@
   `xtalk` e2e runs with tagged payloads; no separate theorem is claimed for it).
 -/
 import SA.Proofs.Accept
+import SA.Proofs.SessLife
 import SA.Gen.PkgVars
 namespace SA.Accept
 
@@ -110,3 +111,36 @@ theorem C02_no_hidden_process_state :
 end SA.PkgState
 
 #print axioms SA.PkgState.C02_no_hidden_process_state
+
+namespace SA.SessLife
+/-- **session_outlives_its_connections**: with the code's policy (the server never closes the session because a logical
+    connection ended) and a carrier of any latency — every interleaving of opens, closes, frame arrivals and notifications,
+    of any length — no connection's SYN ever reaches a closed session, the client never has to dial again, and every
+    connection that was opened has been taken on by the server or its SYN is still travelling.  In particular a
+    connection opened while the session's only other connection is being closed is served. -/
+theorem C02_session_outlives_its_connections (as : List Act) :
+    (run false {} as).lost = [] ∧ (run false {} as).redialled = 0 ∧
+    ∀ id, Act.open_ id ∈ as → id ∈ (run false {} as).served ∨ Frame.syn id ∈ (run false {} as).inflight := by
+  have hg : Good ({} : St) := ⟨rfl, rfl, rfl, rfl⟩
+  have h := run_good {} as hg
+  refine ⟨h.2.2.1, h.2.2.2, ?_⟩
+  intro id hid
+  exact run_tracked {} as (fun _ => False) hg (fun _ hf => hf.elim) id (Or.inr hid)
+
+/-- the code has that policy: the server's session object is closed in one place, on the accept loop's own path after a
+    fatal accept error; the client's in `discard` (a session found dead) and `Shutdown` (regenerated) -/
+theorem C02_session_close_sites :
+    Gen.sessionCloseSites = ["client/upstream/upstream.go Shutdown ul.session:go",
+      "client/upstream/upstream.go discard ul.session:own", "server/communicator.go acceptStream ch.session:own"] ∧
+    serverClosesFromStream = false := by decide
+
+/-- witness: a server that releases the session with its last logical connection loses the connection opened while that
+    close was travelling (A opened and served, A closed, B opened, FIN arrives, B's SYN arrives) -/
+theorem C02_witness_close_when_empty :
+    (run true {} [.open_ 1, .deliver, .close 1, .open_ 2, .deliver, .deliver]).lost = [2] ∧
+    (run false {} [.open_ 1, .deliver, .close 1, .open_ 2, .deliver, .deliver]).served = [2, 1] := by decide
+end SA.SessLife
+
+#print axioms SA.SessLife.C02_session_outlives_its_connections
+#print axioms SA.SessLife.C02_session_close_sites
+#print axioms SA.SessLife.C02_witness_close_when_empty
